@@ -546,12 +546,13 @@ pub(crate) fn verify_requested_restrictions(
                 map
             } else if let Some(names) = info.names.as_ref() {
                 let mut map: HashMap<String, Option<String>> = HashMap::new();
-                let attrs = requested_proof
-                    .revealed_attr_groups
-                    .get(referent)
-                    .ok_or_else(|| err_msg!("Proof does not have referent from proof request"))?;
+                // a group the holder did not reveal has no values to test, like an unrevealed
+                // single attribute
+                let attrs = requested_proof.revealed_attr_groups.get(referent);
                 for name in names {
-                    let val = attrs.values.get(name).map(|attr| attr.raw.clone());
+                    let val = attrs
+                        .and_then(|attrs| attrs.values.get(name))
+                        .map(|attr| attr.raw.clone());
                     map.insert(attr_common_view(name), val);
                 }
                 map
